@@ -1,12 +1,21 @@
 #!/usr/bin/env python3
 """Runner: builds the harness against /repo's working tree, shards worker processes over the
-cores, supervises them (crash attribution, restart), merges their summaries, applies
-known_findings.json, writes evidence/<id>.json and prints VIOLATION / KNOWN-FINDING lines.
+cores, supervises them (crash attribution, hang re-check, restart), merges their summaries,
+applies known_findings.json, writes evidence/<id>.json and prints VIOLATION / KNOWN-FINDING lines.
+
+A check consists of one or more *stages* (worker subcommand x build variant). Variants:
+  chk   stable, release + overflow-checks + debug-assertions          (behavioural oracles, C01)
+  rel   stable, plain release
+  asan  nightly -Zsanitizer=address, release                          (C02)
+  tsan  nightly -Zsanitizer=thread -Zbuild-std                        (C02/C07/C20 race detection)
+  vg    valgrind memcheck on the rel build                            (C02, uninitialised reads)
+  miri  cargo +nightly miri run (optionally with target features)     (C02, tiny cases)
 
 Usage: run.py <Cxx> --tier quick|thorough [--seed N] [--replay PATH]
 """
 import json
 import os
+import re
 import signal
 import subprocess
 import sys
@@ -19,39 +28,69 @@ sys.path.insert(0, str(VERIF / "runner"))
 from props import PROPS  # noqa: E402
 
 NCPU = os.cpu_count() or 4
+CFG = "--cfg jxl_oxide_verif"
+TARGET = "x86_64-unknown-linux-gnu"
 
 
 def log(*a):
     print(*a, file=sys.stderr, flush=True)
 
 
-def cargo_env(variant):
+def base_env():
     env = dict(os.environ)
     env["CARGO_NET_OFFLINE"] = "true"
-    flags = "--cfg jxl_oxide_verif"
-    env["RUSTFLAGS"] = flags
     env.pop("CARGO_TARGET_DIR", None)
+    env.pop("RUSTFLAGS", None)
     return env
 
 
 def build(variant):
-    """Build vcheck for a variant; returns path of the binary."""
+    """Build vcheck for a variant; returns (argv prefix to run the worker, run env)."""
     t0 = time.time()
+    env = base_env()
+    runenv = base_env()
     if variant == "chk":
+        env["RUSTFLAGS"] = CFG
         cmd = ["cargo", "build", "--offline", "--profile", "chk", "-p", "vcheck"]
-        out = HARNESS / "target" / "chk" / "vcheck"
-    elif variant == "rel":
+        prefix = [str(HARNESS / "target" / "chk" / "vcheck")]
+    elif variant in ("rel", "vg"):
+        env["RUSTFLAGS"] = CFG
         cmd = ["cargo", "build", "--offline", "--release", "-p", "vcheck"]
-        out = HARNESS / "target" / "release" / "vcheck"
+        prefix = [str(HARNESS / "target" / "release" / "vcheck")]
+        if variant == "vg":
+            prefix = ["valgrind", "--error-exitcode=97", "--quiet", "--track-origins=no", "--num-callers=24"] + prefix
+    elif variant == "asan":
+        env["RUSTFLAGS"] = f"-Zsanitizer=address -Cforce-frame-pointers=yes {CFG}"
+        cmd = ["cargo", "+nightly", "build", "--offline", "--release", "-p", "vcheck", "--target", TARGET, "--target-dir", str(HARNESS / "target-asan")]
+        prefix = [str(HARNESS / "target-asan" / TARGET / "release" / "vcheck")]
+        runenv["ASAN_OPTIONS"] = "halt_on_error=1:abort_on_error=1:detect_leaks=0:symbolize=1:allocator_may_return_null=1:max_allocation_size_mb=4096"
+        sym = "/usr/bin/llvm-symbolizer-14"
+        if os.path.exists(sym):
+            runenv["ASAN_SYMBOLIZER_PATH"] = sym
+    elif variant == "tsan":
+        env["RUSTFLAGS"] = f"-Zsanitizer=thread {CFG}"
+        cmd = ["cargo", "+nightly", "build", "--offline", "--release", "-p", "vcheck", "-Zbuild-std", "--target", TARGET, "--target-dir", str(HARNESS / "target-tsan")]
+        prefix = [str(HARNESS / "target-tsan" / TARGET / "release" / "vcheck")]
+        runenv["TSAN_OPTIONS"] = "halt_on_error=1:exitcode=66:second_deadlock_stack=1"
+    elif variant.startswith("miri"):
+        # miri, miri+avx2, miri+sse4.1
+        feat = variant.split("+", 1)[1] if "+" in variant else ""
+        flags = CFG + (f" -Ctarget-feature=+{feat}" if feat else "")
+        runenv["RUSTFLAGS"] = flags
+        runenv["MIRIFLAGS"] = "-Zmiri-disable-isolation -Zmiri-ignore-leaks"
+        tdir = str(HARNESS / ("target-miri" + ("-" + feat.replace(".", "") if feat else "")))
+        cmd = None
+        prefix = ["cargo", "+nightly", "miri", "run", "--offline", "-q", "-p", "vcheck", "--target-dir", tdir, "--"]
     else:
         raise SystemExit(f"unknown variant {variant}")
-    r = subprocess.run(cmd, cwd=HARNESS, env=cargo_env(variant), stdout=subprocess.PIPE, stderr=subprocess.STDOUT, text=True)
-    if r.returncode != 0:
-        log(r.stdout[-6000:])
-        log(f"BUILD-FAILED variant={variant}")
-        sys.exit(2)
+    if cmd:
+        r = subprocess.run(cmd, cwd=HARNESS, env=env, stdout=subprocess.PIPE, stderr=subprocess.STDOUT, text=True)
+        if r.returncode != 0:
+            log(r.stdout[-6000:])
+            log(f"BUILD-FAILED variant={variant}")
+            return None, None
     log(f"[build] {variant} ok in {time.time()-t0:.1f}s")
-    return out
+    return prefix, runenv
 
 
 def load_known():
@@ -61,37 +100,66 @@ def load_known():
     return json.loads(p.read_text()).get("findings", [])
 
 
-def run_workers(pid, cfg, tier, seed, binary, logdir):
-    """Run sharded workers; returns (summaries, crashes)."""
-    tcfg = cfg[tier]
+REPO_FRAME = re.compile(r"(?:/repo/)?(crates/[A-Za-z0-9_\-/.]+\.rs):(\d+)")
+
+
+def sanitizer_sig(stderr, variant, rc):
+    kind = "died"
+    m = re.search(r"ERROR: (AddressSanitizer|ThreadSanitizer|LeakSanitizer|MemorySanitizer): ([a-zA-Z\-_ ]+)", stderr)
+    if m:
+        kind = m.group(1).replace("Sanitizer", "san").lower() + ":" + m.group(2).strip().replace(" ", "-")
+    elif "WARNING: ThreadSanitizer: data race" in stderr:
+        kind = "tsan:data-race"
+    elif "Undefined Behavior" in stderr or "error: Undefined" in stderr:
+        kind = "miri:undefined-behavior"
+    elif variant == "vg" and ("Invalid read" in stderr or "Invalid write" in stderr or "uninitialised" in stderr):
+        kind = "memcheck:" + ("uninit" if "uninitialised" in stderr else "invalid-access")
+    elif rc is not None and rc < 0:
+        kind = f"signal-{signal.Signals(-rc).name}"
+    elif rc is not None:
+        kind = f"exit-{rc}"
+    f = REPO_FRAME.search(stderr)
+    where = f"{f.group(1)}:{f.group(2)}" if f else "?"
+    return f"{kind}@{where}"
+
+
+def run_stage(pid, stage, tier, seed, logdir):
+    """Run one stage's sharded workers; returns dict(summaries, crashes, watchdog, nshard, hangs)."""
+    variant = stage.get("variant", "chk")
+    prefix, runenv = build(variant)
+    if prefix is None:
+        return {"build_failed": variant}
+    tcfg = stage[tier]
     cases = tcfg["cases"]
     nshard = min(tcfg.get("shards", NCPU), NCPU, max(1, cases))
     budget = tcfg.get("time_budget", 3600)
+    hang_budget = tcfg.get("hang_budget", 90)
     extra = []
     for k, v in tcfg.get("extra", {}).items():
         extra += [f"--{k}", str(v)]
+    worker = stage["worker"]
+    tag = f"{worker}.{variant.replace('+', '_')}"
     procs = {}
-    summaries = []
-    crashes = []
+    summaries, crashes, slow = [], [], []
 
     def spawn(shard, start):
-        lp = logdir / f"shard{shard}.{start}.json"
-        pp = logdir / f"shard{shard}.progress"
-        cmd = [str(binary), cfg["worker"], "--seed", str(seed), "--tier", tier, "--shard", f"{shard}/{nshard}",
-               "--cases", str(cases), "--start", str(start), "--log", str(lp), "--progress", str(pp),
-               "--time-budget", str(budget), "--replay-dir", str(VERIF / "replay" / pid)] + extra
-        errp = open(logdir / f"shard{shard}.{start}.stderr", "w")
-        p = subprocess.Popen(cmd, cwd=VERIF, stdout=subprocess.DEVNULL, stderr=errp)
-        procs[p.pid] = (p, shard, start, lp, pp, time.time())
+        lp = logdir / f"{tag}.shard{shard}.{start}.json"
+        pp = logdir / f"{tag}.shard{shard}.progress"
+        cmd = prefix + [worker, "--seed", str(seed), "--tier", tier, "--shard", f"{shard}/{nshard}",
+                        "--cases", str(cases), "--start", str(start), "--log", str(lp), "--progress", str(pp),
+                        "--time-budget", str(budget), "--hang-budget", str(hang_budget)] + extra
+        ep = logdir / f"{tag}.shard{shard}.{start}.stderr"
+        p = subprocess.Popen(cmd, cwd=HARNESS, env=runenv, stdout=subprocess.DEVNULL, stderr=open(ep, "w"))
+        procs[p.pid] = (p, shard, start, lp, pp, ep)
 
     for s in range(nshard):
         spawn(s, 0)
-    hard_deadline = time.time() + budget * 3 + 600
+    hard_deadline = time.time() + budget * 3 + 900
     watchdog_fired = False
     while procs:
         time.sleep(0.05)
         for k in list(procs):
-            p, shard, start, lp, pp, t0 = procs[k]
+            p, shard, start, lp, pp, ep = procs[k]
             rc = p.poll()
             if rc is None:
                 if time.time() > hard_deadline:
@@ -102,27 +170,47 @@ def run_workers(pid, cfg, tier, seed, binary, logdir):
             if rc in (0, 1, 2) and lp.exists():
                 try:
                     summaries.append(json.loads(lp.read_text()))
+                    continue
                 except Exception as e:  # truncated
-                    crashes.append({"shard": shard, "case": None, "rc": rc, "why": f"bad summary: {e}"})
-                continue
-            # died: attribute to the case in the progress file
+                    crashes.append({"shard": shard, "case": None, "rc": rc, "why": f"bad summary: {e}", "stderr": ""})
+                    continue
             try:
                 case = int(pp.read_text().split()[0])
             except Exception:
                 case = None
+            stderr = ep.read_text(errors="replace")[-20000:] if ep.exists() else ""
             inp = Path(str(pp) + ".input")
-            crashes.append({"shard": shard, "case": case, "rc": rc,
-                            "input_hex": inp.read_bytes().hex() if inp.exists() and inp.stat().st_size < (1 << 20) else None,
-                            "stderr": (logdir / f"shard{shard}.{start}.stderr").read_text()[-2000:]})
-            if case is not None and len(crashes) < 50:
-                # partial summary of the dead worker is lost; restart after the crashing case
+            rec = {"shard": shard, "case": case, "rc": rc, "stderr": stderr, "variant": variant, "worker": worker,
+                   "input_hex": inp.read_bytes().hex() if inp.exists() and inp.stat().st_size < (1 << 20) else None}
+            if rc == 3 and case is not None:
+                # per-case watchdog: re-run alone with a 10x budget before calling it a hang
+                cmd = prefix + [worker, "--seed", str(seed), "--tier", tier, "--case", str(case), "--hang-budget", str(hang_budget * 10)] + extra
+                t1 = time.time()
+                try:
+                    r2 = subprocess.run(cmd, cwd=HARNESS, env=runenv, stdout=subprocess.DEVNULL, stderr=subprocess.PIPE, timeout=hang_budget * 12)
+                    rc2 = r2.returncode
+                except subprocess.TimeoutExpired:
+                    rc2 = 3
+                if rc2 == 3:
+                    rec["hang"] = True
+                    crashes.append(rec)
+                else:
+                    slow.append({"case": case, "seconds": round(time.time() - t1, 1)})
+            else:
+                crashes.append(rec)
+            if case is not None and len(crashes) < 60:
                 nxt = case + 1
-                # next index belonging to this shard
                 while nxt % nshard != shard:
                     nxt += 1
                 if nxt < cases:
                     spawn(shard, nxt)
-    return summaries, crashes, watchdog_fired, nshard
+    return {"summaries": summaries, "crashes": crashes, "watchdog": watchdog_fired, "nshard": nshard, "slow": slow, "variant": variant, "worker": worker}
+
+
+def stages_of(cfg):
+    if "stages" in cfg:
+        return cfg["stages"]
+    return [{"worker": cfg["worker"], "variant": cfg.get("variant", "chk"), "quick": cfg["quick"], "thorough": cfg["thorough"]}]
 
 
 def main():
@@ -146,11 +234,14 @@ def main():
 
     if replay:
         r = json.loads(Path(replay).read_text())
-        binary = build(r.get("variant", cfg.get("variant", "chk")))
-        cmd = [str(binary), cfg["worker"], "--seed", str(r["seed"]), "--tier", r["tier"], "--case", str(r["case"])]
-        for k, v in cfg[r["tier"]].get("extra", {}).items():
+        prefix, runenv = build(r.get("variant", "chk"))
+        if prefix is None:
+            sys.exit(2)
+        st = [s for s in stages_of(cfg) if s["worker"] == r.get("worker", stages_of(cfg)[0]["worker"])][0]
+        cmd = prefix + [r.get("worker", st["worker"]), "--seed", str(r["seed"]), "--tier", r["tier"], "--case", str(r["case"])]
+        for k, v in st[r["tier"]].get("extra", {}).items():
             cmd += [f"--{k}", str(v)]
-        p = subprocess.run(cmd, cwd=VERIF)
+        p = subprocess.run(cmd, cwd=HARNESS, env=runenv)
         sys.exit(p.returncode)
 
     logdir = VERIF / "logs" / pid / tier
@@ -161,71 +252,87 @@ def main():
     (VERIF / "replay" / pid).mkdir(parents=True, exist_ok=True)
     (VERIF / "evidence").mkdir(exist_ok=True)
 
-    variant = cfg.get("variant", "chk")
-    binary = build(variant)
-    summaries, crashes, watchdog, nshard = run_workers(pid, cfg, tier, seed, binary, logdir)
+    results = []
+    for stage in stages_of(cfg):
+        if tier not in stage:
+            continue
+        results.append(run_stage(pid, stage, tier, seed, logdir))
 
     # ---- merge
+    harness_errors = []
+    summaries = []
+    violations = []
+    stage_info = []
+    watchdog = False
+    for r in results:
+        if "build_failed" in r:
+            harness_errors.append(f"build failed for variant {r['build_failed']}")
+            continue
+        watchdog = watchdog or r["watchdog"]
+        ev = sum(s["evaluations"] for s in r["summaries"])
+        stage_info.append({"worker": r["worker"], "variant": r["variant"], "evaluations": ev, "shards": r["nshard"],
+                           "worker_deaths": len(r["crashes"]), "slow_cases_rechecked": r["slow"][:20]})
+        for s in r["summaries"]:
+            s["_variant"] = r["variant"]
+            s["_worker"] = r["worker"]
+            summaries.append(s)
+            for v in s["violations"]:
+                violations.append(dict(v, variant=r["variant"], worker=r["worker"]))
+            harness_errors += s["harness_errors"]
+        for c in r["crashes"]:
+            if c.get("case") is None:
+                harness_errors.append(f"worker died without progress info rc={c['rc']} {c.get('why','')} {c.get('stderr','')[-300:]}")
+                continue
+            if c.get("hang"):
+                sig = "hang"
+                detail = f"case did not finish within 10x the per-case budget when re-run alone (worker {c['worker']}, variant {c['variant']})"
+            else:
+                sig = sanitizer_sig(c.get("stderr", ""), c["variant"], c["rc"])
+                tail = c.get("stderr", "")
+                # keep the informative part of a sanitizer report
+                m = re.search(r"(==\d+==ERROR.*|WARNING: ThreadSanitizer.*|error: Undefined Behavior.*)", tail, re.S)
+                detail = "worker process died in this case: " + (m.group(1)[:1500] if m else tail[-800:])
+            violations.append({"case": c["case"], "sig": sig, "detail": detail, "input_hex": c.get("input_hex"), "variant": c["variant"], "worker": c["worker"]})
+
     evaluations = sum(s["evaluations"] for s in summaries)
     sigs = set()
     for s in summaries:
-        sigs.update(s["sigs"])
-    sig_names = []
+        sigs.update((s["_worker"], x) for x in s["sigs"])
+    sig_names, samples = [], []
     for s in summaries:
         for n in s["sig_names"]:
             if n not in sig_names and len(sig_names) < 40:
                 sig_names.append(n)
-    samples = []
-    for s in summaries:
         for x in s["samples"]:
             if len(samples) < 8:
                 samples.append(x)
-    obs = {}
+    obs, obs_sets, inconclusive = {}, {}, {}
     for s in summaries:
         for k, v in s["obs"].items():
             obs[k] = obs.get(k, 0) + v
-    obs_sets = {}
-    for s in summaries:
         for k, v in s.get("obs_sets", {}).items():
             obs_sets.setdefault(k, set()).update(v)
-    inconclusive = {}
-    for s in summaries:
         for k, v in s["inconclusive"].items():
             inconclusive[k] = inconclusive.get(k, 0) + v
-    harness_errors = [e for s in summaries for e in s["harness_errors"]]
-    violations = [dict(v, variant=variant) for s in summaries for v in s["violations"]]
-    for c in crashes:
-        if c.get("case") is None:
-            harness_errors.append(f"worker died without progress info rc={c['rc']} {c.get('why','')}")
-            continue
-        rc = c["rc"]
-        if rc < 0:
-            kind = f"signal-{signal.Signals(-rc).name}"
-        else:
-            kind = f"exit-{rc}"
-        violations.append({"case": c["case"], "sig": f"process-died:{kind}", "detail": "worker process died in this case: " + (c.get("stderr") or "")[-600:],
-                           "input_hex": c.get("input_hex"), "variant": variant})
 
     known = [k for k in load_known() if k["property"] == pid and k.get("status") == "known"]
     known_sigs = {k["signature"]: k for k in known}
-    new_violations = []
-    known_hits = {}
+    new_violations, known_hits = [], {}
     for v in violations:
         if v["sig"] in known_sigs:
             known_hits.setdefault(v["sig"], []).append(v)
         else:
             new_violations.append(v)
 
-    # replay files
     replay_paths = []
     for v in new_violations[:50]:
-        rp = VERIF / "replay" / pid / f"{tier}-seed{seed}-case{v['case']}.json"
-        rp.write_text(json.dumps({"property": pid, "seed": seed, "tier": tier, "case": v["case"], "sig": v["sig"],
-                                  "detail": v["detail"], "input_hex": v.get("input_hex"), "variant": v.get("variant", variant),
+        rp = VERIF / "replay" / pid / f"{tier}-seed{seed}-{v.get('worker','w')}-{v.get('variant','chk').replace('+','_')}-case{v['case']}.json"
+        rp.write_text(json.dumps({"property": pid, "seed": seed, "tier": tier, "case": v["case"], "sig": v["sig"], "worker": v.get("worker"),
+                                  "detail": v["detail"], "input_hex": v.get("input_hex"), "variant": v.get("variant", "chk"),
                                   "cmd": f"./check {pid} --replay {rp}"}, indent=1))
         replay_paths.append((v, rp))
 
-    floor = cfg[tier].get("floor", 1)
+    floor = sum(st[tier].get("floor", 1) for st in stages_of(cfg) if tier in st)
     wall = time.time() - t0
     evidence = {
         "property_id": pid,
@@ -242,9 +349,7 @@ def main():
             "observed_sets": {k: sorted(v)[:200] for k, v in obs_sets.items()},
             "observed_set_sizes": {k: len(v) for k, v in obs_sets.items()},
             "inconclusive": inconclusive,
-            "shards": nshard,
-            "build_variant": variant,
-            "worker_crashes": len(crashes),
+            "stages": stage_info,
             "known_findings_hit": {k: len(v) for k, v in known_hits.items()},
             "exhaustive": False,
         },
@@ -275,7 +380,7 @@ def main():
     if evaluations < floor or len(sigs) < 2:
         print(f"INCONCLUSIVE property={pid} too little observed: evaluations={evaluations} (floor {floor}) distinct={len(sigs)}")
         sys.exit(2)
-    print(f"OK property={pid} tier={tier} seed={seed} evaluations={evaluations} distinct_nontrivial={len(sigs)} wall={wall:.1f}s observed={json.dumps(obs)}")
+    print(f"OK property={pid} tier={tier} seed={seed} evaluations={evaluations} distinct_nontrivial={len(sigs)} wall={wall:.1f}s stages={json.dumps(stage_info)} observed={json.dumps(obs)[:1500]}")
     sys.exit(0)
 
 
